@@ -754,18 +754,76 @@ def pi_axioms():
     return [PI >= z3.RealVal(PI_LO), PI <= z3.RealVal(PI_HI)]
 
 
+def _pi_coeff(m):
+    """m == c*PI (c rational) -> Fraction c, else None"""
+    if m.eq(PI):
+        return fractions.Fraction(1)
+    if z3.is_app(m) and m.decl().kind() == z3.Z3_OP_MUL and m.num_args() == 2:
+        a, b = m.children()
+        if b.eq(PI) and z3.is_rational_value(a):
+            return a.as_fraction()
+        if a.eq(PI) and z3.is_rational_value(b):
+            return b.as_fraction()
+    return None
+
+
+def _lead_negative(y):
+    m = y.children()[0] if z3.is_app(y) and y.decl().kind() == z3.Z3_OP_ADD else y
+    if z3.is_rational_value(m):
+        return m.as_fraction() < 0
+    if z3.is_app(m) and m.decl().kind() == z3.Z3_OP_MUL and z3.is_rational_value(m.children()[0]):
+        return m.children()[0].as_fraction() < 0
+    if z3.is_app(m) and m.decl().kind() == z3.Z3_OP_UMINUS:
+        return True
+    return False
+
+
 def _trig(e):
-    """cos/sin of an atomic angle: uninterpreted with c^2+s^2=1."""
-    x = z3.simplify(_real(e))
+    """(cos e, sin e).  The angle is normalised first: whole multiples of PI/2 are split off and applied as a rotation,
+    numeric constants within 1e-9 of a multiple of pi/2 likewise (with a bounded perturbation), and the remaining
+    angle is made sign-canonical (cos even, sin odd); what is left is an atom with cos^2 + sin^2 = 1."""
     c = Ctx.cur
+    x = z3.simplify(_real(e), som=True)
+    mons = x.children() if z3.is_app(x) and x.decl().kind() == z3.Z3_OP_ADD else [x]
+    q, rest, delta = 0, [], 0.0
+    for m in mons:
+        co = _pi_coeff(m)
+        if co is not None and (co * 2).denominator == 1:
+            q += int(co * 2)
+        elif z3.is_rational_value(m) and m.as_fraction() != 0:
+            r = float(m.as_fraction())
+            k = round(r / (math.pi / 2))
+            if k != 0 and abs(r - k * math.pi / 2) < 1e-9:
+                q += k
+                delta += r - k * math.pi / 2
+            else:
+                rest.append(m)
+        else:
+            rest.append(m)
+    y = z3.RealVal(0)
+    for m in rest:
+        y = y + m
+    y = z3.simplify(y, som=True)
+    flip = _lead_negative(y)
+    if flip:
+        y = z3.simplify(-y, som=True)
     seen = c.__dict__.setdefault("_trig_args", set())
-    k = x.sexpr()
-    if k not in seen:
-        seen.add(k)
-        c.pc += [COS(x) * COS(x) + SIN(x) * SIN(x) == 1]
-        if z3.is_rational_value(x) and x.as_fraction() == 0:
-            c.pc += [COS(x) == 1, SIN(x) == 0]
-    return COS(x), SIN(x)
+    k = y.sexpr()
+    if z3.is_rational_value(y) and y.as_fraction() == 0:
+        c0, s0 = z3.RealVal(1), z3.RealVal(0)
+    else:
+        c0, s0 = COS(y), SIN(y)
+        if k not in seen:
+            seen.add(k)
+            c.pc += [c0 * c0 + s0 * s0 == 1]
+    if flip:
+        s0 = -s0
+    if delta != 0.0:
+        cd, sd = c.new_real("cosd"), c.new_real("sind")
+        b = z3.RealVal(fractions.Fraction(abs(delta) + 1e-15))
+        c.pc += [cd * cd + sd * sd == 1, sd <= b, sd >= -b, cd >= 1 - b * b, cd <= 1]
+        c0, s0 = c0 * cd - s0 * sd, s0 * cd + c0 * sd
+    return [(c0, s0), (-s0, c0), (-c0, -s0), (s0, -c0)][q % 4]
 
 
 class _TypeLike(type):
